@@ -52,6 +52,9 @@ def main():
         indict = c["indict"]
         before = copy.deepcopy(indict)
         rec = {}
+        if req.get("standin"):
+            import pygsl.odeiv as _odeiv
+            del _odeiv.CALLS[:]
         try:
             res = odetoolbox.analysis(indict, **c.get("flags", {}))
             rec["result"] = canon(res)
@@ -59,6 +62,11 @@ def main():
         except BaseException as e:
             rec["exception"] = type(e).__name__
         rec["input_unmodified"] = (indict == before)
+        if req.get("standin"):
+            # what the stiffness test asked of the (stand-in) stepper: how far it simulated and the largest step it requested
+            cs = list(_odeiv.CALLS)
+            if cs:
+                rec["stiffness_run"] = {"t_end": float(max(c[2] for c in cs)), "h_max": float(max(c[3] for c in cs)), "applies": len(cs)}
         rec["config"] = {k: (v if isinstance(v, str) else repr(v)) for k, v in Config.config.items()}
         outs.append(rec)
     sys.stdout.write(json.dumps({"calls": outs}) + "\n")
